@@ -24,3 +24,5 @@ open A2l.Srt
 #print axioms iterInv_history
 #print axioms placed_order_stable_history_partial
 #print axioms push_into_single_breaks_invariant
+#print axioms list_without_placed_stays_new
+#print axioms unplaced_smaller_tag_first
